@@ -401,7 +401,9 @@ func (o *Bytes) BinaryOp(op token.Token, rhs Object) (Object, error) {
 			if len(o.Value)+len(rhs.Value) > MaxBytesLen {
 				return nil, ErrBytesLimit
 			}
-			return &Bytes{Value: append(o.Value, rhs.Value...)}, nil
+			buf := make([]byte, 0, len(o.Value)+len(rhs.Value))
+			buf = append(buf, o.Value...)
+			return &Bytes{Value: append(buf, rhs.Value...)}, nil
 		}
 	}
 	return nil, ErrInvalidOperator
